@@ -45,7 +45,7 @@ def tree_hash(repo=REPO):
                 h.update(hashlib.sha1(fh.read()).digest())
             n += 1
     # the extractor and this module are part of the key: facts change when they change
-    for p in (os.path.join(VERIF, 'tools', 'xrl-facts.cc'), os.path.abspath(__file__)):
+    for p in (os.path.join(VERIF, 'tools', 'xrl-facts.cc'), os.path.join(VERIF, 'tools', 'JavaFacts.java'), os.path.abspath(__file__)):
         with open(p, 'rb') as fh:
             h.update(hashlib.sha1(fh.read()).digest())
     return h.hexdigest()[:20], n
@@ -201,6 +201,27 @@ def extract(repo=REPO, want_generated=False, keep_generated_to=None):
             # a wrapper that cannot be instantiated with the C argument types is a finding of C18, not a broken analysis
             d['diagnostics'] = [l for l in o.split('\n') if ' error: ' in l or ' note: ' in l][:200]
             facts_units.append(d)
+        # the Java implementation: parsed with javac's own parser (tools/JavaFacts.java), same node vocabulary
+        jdir = os.path.join(repo, 'java')
+        jfiles = sorted(os.path.join(jdir, f) for f in os.listdir(jdir) if f.endswith('.java')) if os.path.isdir(jdir) else []
+        if jfiles:
+            if not os.path.exists(os.path.join(VERIF, 'bin', 'JavaFacts.class')):
+                raise AnalysisBroken('bin/JavaFacts.class missing: run MANIFEST.setup_cmd (make -C /verif)')
+            jout = os.path.join(outdir, 'java.json')
+            rc, o = _run(['java', '-cp', os.path.join(VERIF, 'bin'), 'JavaFacts', jout] + jfiles, timeout=300)
+            if rc != 0 or not os.path.exists(jout):
+                raise AnalysisBroken('JavaFacts failed (rc=%s):\n%s' % (rc, o[-3000:]))
+            jd = json.load(open(jout))
+            if jd.get('errors'):
+                raise AnalysisBroken('the Java sources do not parse (%d errors):\n%s' % (jd['errors'], jd.get('diagnostics', '')[-2000:]))
+            for c in jd['classes']:
+                c['rel'] = os.path.relpath(c['file'], repo)
+                for f in c['functions']:
+                    f['rel'] = c['rel']
+                    f['unit'] = c['rel']
+                    f['cls'] = c['name']
+            facts_units.append({'unit': 'java', 'lang': 'java', 'path': jdir, 'rel': 'java', 'errors': 0, 'classes': jd['classes'],
+                                'functions': [], 'globals': [], 'protos': [], 'records': [], 'typedefs': [], 'enums': [], 'macros': []})
         res = {'units': facts_units, 'scratch': sd, 'bdir': bdir, 'extract_s': time.time() - t0,
                'config_h': open(os.path.join(bdir, 'config.h')).read()}
         if want_generated and keep_generated_to:
